@@ -1,4 +1,5 @@
-"""R12.5 / R12.6 / R12.7 of C12 (what the state machine matcher proposes as a redirect) and the constant executor of R12.8.
+"""R12.5 / R12.6 / R12.7 of C12 (what the state machine matcher proposes as a redirect), the constant executor of R12.8 / R12.9,
+and R12.10 / R12.11 (the rule-pair predicate of the defaults redirect and the build order, decided on symbolic rules).
 
 Nothing here is keyed on a local's name or on the text of a statement.  The
 roles are found structurally:
@@ -929,12 +930,35 @@ class FDict(tuple):
     """a constant dict display: tuple of (key, value) pairs."""
 
 
+class Obj:
+    """a symbolic object (one rule of a map): class + the attributes that matter; two objects are equal iff they are
+    the same object (`tag`)."""
+
+    __slots__ = ("tag", "cls", "attrs")
+
+    def __init__(self, tag: str, cls: t.Any, attrs: dict[str, t.Any]):
+        self.tag, self.cls, self.attrs = tag, cls, attrs
+
+    def __eq__(self, o: object) -> bool:
+        return isinstance(o, Obj) and o.tag == self.tag
+
+    def __ne__(self, o: object) -> bool:
+        return not self.__eq__(o)
+
+    def __hash__(self) -> int:
+        return hash(("Obj", self.tag))
+
+    def __repr__(self) -> str:
+        return f"<{self.tag}>"
+
+
 class BudgetExceeded(Exception):
     pass
 
 
-_STR_METHODS = {"lower", "upper", "strip", "lstrip", "rstrip", "startswith", "endswith", "removeprefix", "removesuffix", "casefold", "partition", "rpartition"}
-_BUILTINS = {"str", "bool", "frozenset", "set", "tuple", "list", "len"}
+_STR_METHODS = {"lower", "upper", "strip", "lstrip", "rstrip", "startswith", "endswith", "removeprefix", "removesuffix", "casefold", "partition", "rpartition", "join"}
+_SET_METHODS = {"issuperset", "issubset", "isdisjoint", "union", "intersection", "difference", "symmetric_difference", "copy"}
+_BUILTINS = {"str", "bool", "frozenset", "set", "tuple", "list", "len", "int"}
 
 
 def _uniq(xs: t.Iterable[t.Any]) -> list[t.Any]:
@@ -977,10 +1001,12 @@ class _Scope:
 
 
 class ConstExec:
-    def __init__(self, repo: t.Any, selfattrs: dict[str, t.Any], budget: int = 20000):
+    def __init__(self, repo: t.Any, selfattrs: dict[str, t.Any], budget: int = 20000, fill: dict[str, t.Any] | None = None):
         self.repo = repo
-        self.selfattrs = selfattrs
+        self.selfattrs = selfattrs  # attribute (or dotted attribute chain) of the implicit `self` -> constant
         self.budget = budget
+        # function fq -> the value its one parameter that the calling context leaves open is taken to have
+        self.fill = fill or {}
         self._memo: dict[tuple, list[t.Any]] = {}
 
     # -- exploration ----------------------------------------------------
@@ -1015,6 +1041,10 @@ class ConstExec:
     def call(self, fi: FuncInfo, params: dict[str, t.Any], stack: tuple[str, ...]) -> list[t.Any]:
         if fi.fq in stack or len(stack) > 4 or any(isinstance(n, (ast.Yield, ast.YieldFrom)) for n in walk_no_nested(fi.node)):
             return [UNKNOWN]
+        if fi.fq in self.fill:
+            open_ = [p for p in fi.params[(1 if fi.cls is not None and "staticmethod" not in fi.decorators else 0):] if p not in params]
+            if len(open_) == 1:
+                params = {**params, open_[0]: self.fill[fi.fq]}
         key = (fi.fq, frozenset((k, type(v).__name__, v) for k, v in params.items() if v is not UNKNOWN))
         if key not in self._memo:
             try:
@@ -1164,6 +1194,22 @@ class ConstExec:
         return [UNKNOWN]
 
     def ev_Attribute(self, e: ast.Attribute, env, sc):  # noqa: N802
+        d = dotted(e)
+        if d is not None and d.startswith("self.") and "self" not in env and sc.fi.cls is not None and d[5:] in self.selfattrs:
+            return [self.selfattrs[d[5:]]]
+        if not (astq.is_name(e.value, "self") and "self" not in env):
+            out = []
+            for v in self.ev(e.value, env, sc):
+                if isinstance(v, Obj):
+                    if e.attr in v.attrs:
+                        out.append(v.attrs[e.attr])
+                        continue
+                    _, what = self.repo.lookup(v.cls, e.attr)
+                    if isinstance(what, FuncInfo) and any(x.rsplit(".", 1)[-1] in ("property", "cached_property") for x in what.decorators):
+                        out += self.call(what, {"self": v}, sc.stack)
+                        continue
+                out.append(UNKNOWN)
+            return out
         if astq.is_name(e.value, "self") and "self" not in env and sc.fi.cls is not None:
             if e.attr in self.selfattrs:
                 return [self.selfattrs[e.attr]]
@@ -1273,6 +1319,8 @@ class ConstExec:
     def ev_UnaryOp(self, e: ast.UnaryOp, env, sc):  # noqa: N802
         if isinstance(e.op, ast.Not):
             return [UNKNOWN if v is UNKNOWN else (not v) for v in self.ev(e.operand, env, sc)]
+        if isinstance(e.op, (ast.USub, ast.UAdd)):
+            return [(-v if isinstance(e.op, ast.USub) else +v) if isinstance(v, (int, bool)) else UNKNOWN for v in self.ev(e.operand, env, sc)]
         return [UNKNOWN]
 
     def ev_IfExp(self, e: ast.IfExp, env, sc):  # noqa: N802
@@ -1307,7 +1355,14 @@ class ConstExec:
         out = []
         for a, b in self._combos([self.ev(e.left, env, sc), self.ev(e.right, env, sc)]):
             ok = isinstance(e.op, ast.Add) and a is not UNKNOWN and b is not UNKNOWN and type(a) is type(b) and isinstance(a, (str, int, tuple)) and not isinstance(a, (bool, FDict))
-            out.append(a + b if ok else UNKNOWN)
+            if ok:
+                out.append(a + b)
+            elif isinstance(a, frozenset) and isinstance(b, frozenset) and isinstance(e.op, (ast.Sub, ast.BitAnd, ast.BitOr, ast.BitXor)):
+                out.append(a - b if isinstance(e.op, ast.Sub) else a & b if isinstance(e.op, ast.BitAnd) else a | b if isinstance(e.op, ast.BitOr) else a ^ b)
+            elif isinstance(a, (int, bool)) and isinstance(b, (int, bool)) and isinstance(e.op, (ast.Add, ast.Sub, ast.Mult)):
+                out.append(a + b if isinstance(e.op, ast.Add) else a - b if isinstance(e.op, ast.Sub) else a * b)
+            else:
+                out.append(UNKNOWN)
         return out
 
     def ev_NamedExpr(self, e: ast.NamedExpr, env, sc):  # noqa: N802
@@ -1333,7 +1388,7 @@ class ConstExec:
         plain = not e.keywords and not any(isinstance(x, ast.Starred) for x in e.args)
         if isinstance(f, ast.Name) and f.id in _BUILTINS and f.id not in sc.locals and f.id not in sc.fi.module.assigns and plain and len(e.args) <= 1:
             if not e.args:
-                return [{"str": "", "bool": False, "frozenset": frozenset(), "set": frozenset(), "tuple": (), "list": (), "len": UNKNOWN}[f.id]]
+                return [{"str": "", "bool": False, "frozenset": frozenset(), "set": frozenset(), "tuple": (), "list": (), "len": UNKNOWN, "int": 0}[f.id]]
             out = []
             for v in self.ev(e.args[0], env, sc):
                 r: t.Any = UNKNOWN
@@ -1342,12 +1397,14 @@ class ConstExec:
                         r = bool(v)
                     elif f.id == "str" and (v is None or isinstance(v, (str, int, bool))):
                         r = str(v)
-                    elif f.id in ("frozenset", "set") and isinstance(v, (tuple, frozenset, str)) and not isinstance(v, FDict):
-                        r = frozenset(v)
-                    elif f.id in ("tuple", "list") and isinstance(v, (tuple, str)) and not isinstance(v, FDict):
-                        r = tuple(v)
+                    elif f.id in ("frozenset", "set") and isinstance(v, (tuple, frozenset, str)):
+                        r = frozenset(k for k, _ in v) if isinstance(v, FDict) else frozenset(v)  # a mapping iterates over its keys
+                    elif f.id in ("tuple", "list") and isinstance(v, (tuple, str)):
+                        r = tuple(k for k, _ in v) if isinstance(v, FDict) else tuple(v)
                     elif f.id == "len" and isinstance(v, (tuple, frozenset, str)):
                         r = len(v)
+                    elif f.id == "int" and isinstance(v, (int, bool)):
+                        r = int(v)
                 out.append(r)
             return out
         if isinstance(f, ast.Attribute) and astq.is_name(f.value, "self") and "self" not in env and sc.fi.cls is not None:
@@ -1355,6 +1412,13 @@ class ConstExec:
             if isinstance(what, FuncInfo):
                 return self.call(what, self._bind_call(what, e, env, sc), sc.stack)
             return [UNKNOWN]
+        if isinstance(f, ast.Attribute) and isinstance(f.value, (ast.Name, ast.Attribute)):
+            recvs = self.ev(f.value, env, sc)
+            if len(recvs) == 1 and isinstance(recvs[0], Obj):  # a method of a symbolic object
+                _, what = self.repo.lookup(recvs[0].cls, f.attr)
+                if isinstance(what, FuncInfo) and "staticmethod" not in what.decorators and "classmethod" not in what.decorators:
+                    return self.call(what, {**self._bind_call(what, e, env, sc), what.params[0]: recvs[0]}, sc.stack)
+                return [UNKNOWN]
         if isinstance(f, ast.Attribute) and plain:
             out = []
             for combo in self._combos([self.ev(f.value, env, sc)] + [self.ev(x, env, sc) for x in e.args]):
@@ -1367,6 +1431,10 @@ class ConstExec:
                         elif isinstance(recv, FDict) and f.attr == "get" and 1 <= len(args) <= 2:
                             hit = [v for k, v in recv if type(k) is type(args[0]) and k == args[0]]
                             r = hit[-1] if hit else (args[1] if len(args) == 2 else None)
+                        elif isinstance(recv, FDict) and f.attr == "keys" and not args:
+                            r = tuple(k for k, _ in recv)
+                        elif isinstance(recv, frozenset) and f.attr in _SET_METHODS and all(isinstance(x, (frozenset, tuple)) and not isinstance(x, FDict) for x in args):
+                            r = getattr(recv, f.attr)(*args)
                     except (TypeError, ValueError):
                         r = UNKNOWN
                 out.append(r)
@@ -1396,3 +1464,244 @@ class ConstExec:
         for k in call.keywords:
             out[k.arg] = one(k.value)  # type: ignore[index]
         return {k: v for k, v in out.items() if v is not UNKNOWN}
+
+
+# ---------------------------------------------------------------------
+# R12.10 / R12.11: which rule the router proposes as the canonical form of another
+#
+# Both are decided on *symbolic rules*: objects that carry only the attributes the decision reads (argument set,
+# defaults, alias flag, build-only flag, endpoint), evaluated with the constant executor.  The attributes are found by
+# role in Rule.__init__ (assigned from the public keyword of that name; the argument set is the attribute __init__
+# derives from the defaults' keys).
+
+ADAPTER = "routing.map.MapAdapter"
+RULE = "routing.rules.Rule"
+MAPCLS = "routing.map.Map"
+RULE_KEYWORDS = ("defaults", "alias", "build_only", "endpoint")  # public keyword names of Rule()
+
+
+class RuleModel:
+    def __init__(self, ctx: Ctx):
+        self.repo = ctx.repo
+        self.cls = ctx.repo.cls(RULE)
+        init = self.cls.methods.get("__init__")
+        if init is None:
+            raise AnalysisError("Rule.__init__ missing")
+        self.attr: dict[str, str] = {}
+        derived: set[str] = set()
+        for st in walk_no_nested(init.node):
+            if isinstance(st, (ast.Assign, ast.AnnAssign)) and st.value is not None:
+                for tg in (st.targets if isinstance(st, ast.Assign) else [st.target]):
+                    if not is_self_attr(tg):
+                        continue
+                    if isinstance(st.value, ast.Name) and st.value.id in RULE_KEYWORDS and st.value.id in init.params:
+                        self.attr.setdefault(st.value.id, tg.attr)
+                    elif "defaults" in astq.names_in(st.value):
+                        derived.add(tg.attr)
+        missing = [k for k in RULE_KEYWORDS if k not in self.attr]
+        derived -= set(self.attr.values())
+        if missing or len(derived) != 1:
+            raise AnalysisError(f"Rule.__init__: attributes for {missing or 'the argument set'} not found (argument-set candidates: {sorted(derived)})")
+        self.attr["arguments"] = next(iter(derived))
+
+    def rule(self, tag: str, arguments: t.Iterable[str], defaults: t.Iterable[str] | None, alias: bool = False, build_only: bool = False, endpoint: str = "ep") -> Obj:
+        """defaults: names of the defaulted arguments; None = no defaults given (stored as None)."""
+        dv = None if defaults is None else FDict((k, 1) for k in defaults)
+        a = self.attr
+        return Obj(tag, self.cls, {a["arguments"]: frozenset(arguments), a["defaults"]: dv, a["alias"]: alias, a["build_only"]: build_only, a["endpoint"]: endpoint})
+
+    def show(self, o: Obj) -> str:
+        a = self.attr
+        dv = o.attrs[a["defaults"]]
+        bits = [f"arguments={{{','.join(sorted(o.attrs[a['arguments']]))}}}", "defaults=" + ("None" if dv is None else "{" + ",".join(k for k, _ in dv) + "}")]
+        if o.attrs[a["alias"]]:
+            bits.append("alias")
+        if o.attrs[a["build_only"]]:
+            bits.append("build_only")
+        return f"{o.tag.split('#')[0]}({' '.join(bits)})"
+
+
+def _adapter_closure(ctx: Ctx) -> list[FuncInfo]:
+    """MapAdapter.match and the adapter methods it calls through self, transitively."""
+    repo = ctx.repo
+    acls = repo.cls(ADAPTER)
+    todo, seen = [repo.func(f"{ADAPTER}.match")], {}
+    while todo:
+        fi = todo.pop()
+        if fi.fq in seen:
+            continue
+        seen[fi.fq] = fi
+        for c in astq.calls(fi.node):
+            f = c.func
+            if isinstance(f, ast.Attribute) and astq.is_name(f.value, "self"):
+                _, what = repo.lookup(acls, f.attr)
+                if isinstance(what, FuncInfo):
+                    todo.append(what)
+    return sorted(seen.values(), key=lambda f: f.fq)
+
+
+def _one(vals: list[t.Any]) -> t.Any:
+    return vals[0] if len(vals) == 1 else UNKNOWN
+
+
+def defaults_provider_rule(ctx: Ctx) -> None:
+    """R12.10"""
+    repo = ctx.repo
+    rm = RuleModel(ctx)
+    # pair predicates: methods of Rule with exactly one parameter besides self - another rule - that the adapter calls on
+    # something other than itself while handling match()
+    preds: dict[str, tuple[FuncInfo, list[str]]] = {}
+    for fi in _adapter_closure(ctx):
+        for c in astq.calls(fi.node):
+            f = c.func
+            if not isinstance(f, ast.Attribute) or astq.is_name(f.value, "self") or len(c.args) + len(c.keywords) != 1:
+                continue
+            _, what = repo.lookup(rm.cls, f.attr)
+            if not isinstance(what, FuncInfo) or "staticmethod" in what.decorators or "classmethod" in what.decorators:
+                continue
+            a = what.node.args  # type: ignore[attr-defined]
+            ps = a.posonlyargs + a.args
+            if len(ps) != 2 or a.kwonlyargs or a.vararg or a.kwarg or a.defaults:
+                continue
+            ann = ps[1].annotation
+            if ann is not None and rm.cls.name not in norm(ann):
+                continue
+            preds.setdefault(what.fq, (what, []))[1].append(f"{fi.qualname}: `{norm(c)[:60]}`")
+    ctx.floor("R12.10", "rule-pair predicates (Rule methods taking another rule) the adapter consults while matching", len(preds), 1)
+    # candidate r (has defaults for `a`) against the matched rule m
+    pairs: list[tuple[str, Obj, Obj]] = []
+    for rel, ra, ma in (("equal", "ab", "ab"), ("equal", "a", "a"), ("superset", "ab", "b"), ("superset", "a", ""), ("subset", "a", "ab"),
+                        ("overlapping", "ab", "bc"), ("disjoint, same size", "a", "b")):
+        for md in ([None, "b"] if "b" in ma else [None]):
+            pairs.append((rel, rm.rule("r", ra, "a"), rm.rule("m", ma, md)))
+    for fq, (fi, sites) in sorted(preds.items()):
+        ctx.saw(fi)
+        other = fi.params[1]
+
+        def run(r: Obj, m: Obj) -> t.Any:
+            v = _one(ConstExec(repo, {}).call(fi, {fi.params[0]: r, other: m}, ()))
+            return v if v is UNKNOWN else bool(v)
+
+        rows, bad, undecided, calibrated = [], [], [], 0
+        for rel, r, m in pairs:
+            v = run(r, m)
+            rows.append(f"{rm.show(r)} / {rm.show(m)} [{rel}] -> {v}")
+            if rel == "equal":
+                calibrated += v is True
+            elif v is UNKNOWN:
+                undecided.append(rows[-1])
+            elif v:
+                bad.append(rows[-1])
+        if undecided and not bad:
+            ctx.error(f"R12.10: {fi.qualname}: does not evaluate to a constant for the rule pairs {undecided}")
+        else:
+            ctx.ob("R12.10", f"{fi.qualname}: a rule is the defaults-canonical form only of a rule with the same argument set", not bad,
+                   ("true although the argument sets differ: " + "; ".join(bad) + " | " if bad else "") + f"called at {sites}; table (candidate / matched rule): " + "; ".join(rows), fi, fi.node, f"{fi.qualname} requires equal argument sets")
+        ctx.floor("R12.10", f"rule pairs with equal argument sets for which {fi.qualname} evaluates to True (calibration)", calibrated, 1)
+        # a build-only rule is never matched: a redirect to its URL does not match the same endpoint
+        r, m = rm.rule("r", "ab", "a", build_only=True), rm.rule("m", "ab", None)
+        v = run(r, m)
+        if v is UNKNOWN:
+            ctx.error(f"R12.10: {fi.qualname}: does not evaluate to a constant for {rm.show(r)} / {rm.show(m)}")
+        else:
+            ctx.ob("R12.10", f"{fi.qualname}: a build-only rule is not the defaults-canonical form of a matched rule", not v, f"{rm.show(r)} / {rm.show(m)} -> {v}", fi, fi.node, f"{fi.qualname} excludes build-only rules")
+
+
+def _sorted_collection(call: ast.Call) -> ast.AST | None:
+    """the collection a `.sort(...)` / `sorted(...)` call orders."""
+    f = call.func
+    if isinstance(f, ast.Attribute) and f.attr == "sort":
+        return f.value
+    if isinstance(f, ast.Name) and f.id == "sorted" and call.args:
+        return call.args[0]
+    return None
+
+
+def build_order_rule(ctx: Ctx) -> None:
+    """R12.11"""
+    repo = ctx.repo
+    rm = RuleModel(ctx)
+    acls, mcls = repo.cls(ADAPTER), repo.cls(MAPCLS)
+    ainit = acls.methods.get("__init__")
+    map_attrs = {tg.attr for st in walk_no_nested(ainit.node) if isinstance(st, (ast.Assign, ast.AnnAssign)) and astq.is_name(st.value, "map")
+                 for tg in (st.targets if isinstance(st, ast.Assign) else [st.target]) if is_self_attr(tg)} if ainit is not None else set()
+    if not map_attrs:
+        raise AnalysisError("MapAdapter.__init__ stores its `map` parameter in no attribute")
+    # attributes of the map the adapter iterates / indexes while matching (the per-endpoint rule lists)
+    read: set[str] = set()
+    for fi in _adapter_closure(ctx):
+        for n in ast.walk(fi.node):
+            if isinstance(n, ast.Attribute) and isinstance(n.value, ast.Attribute) and is_self_attr(n.value) and n.value.attr in map_attrs:
+                read.add(n.attr)
+    sorts: list[tuple[FuncInfo, ast.Call]] = []
+    for fi in mcls.methods.values():
+        for c in astq.calls(fi.node):
+            col = _sorted_collection(c)
+            if col is None:
+                continue
+            exprs = [col]
+            for nm in astq.names_in(col):  # the name's binding: a loop over / an assignment from the attribute
+                for st in ast.walk(fi.node):
+                    if isinstance(st, (ast.For, ast.comprehension)) and nm in astq.names_in(st.target):
+                        exprs.append(st.iter)
+                    elif isinstance(st, ast.Assign) and any(nm in astq.names_in(tg) for tg in st.targets):
+                        exprs.append(st.value)
+            if any(is_self_attr(n) and n.attr in read for x in exprs for n in ast.walk(x)):
+                sorts.append((fi, c))
+    ctx.floor("R12.11", "sorts of the per-endpoint rule lists in Map", len(sorts), 1)
+    configs = [(k, d) for k in range(3) for d in range(k + 1)]
+
+    def mk(tag: str, k: int, d: int, alias: bool, empty: bool) -> Obj:
+        # one tag per configuration: objects are compared (and the executor's call results cached) by tag
+        return rm.rule(f"{tag}#{k}{d}{'e' if empty else ''}", "abc"[:k], ("abc"[:d] if d or empty else None), alias=alias)
+
+    for fi, c in sorts:
+        ctx.saw(fi)
+        kw = {k.arg: k.value for k in c.keywords}
+        key, rev = kw.get("key"), kw.get("reverse")
+        if key is None or (rev is not None and not (isinstance(rev, ast.Constant) and isinstance(rev.value, bool))):
+            raise AnalysisError(f"{fi.qualname}: the sort at {fi.loc(c)} has no key function / a computed `reverse` (order not modelled)")
+        reverse = bool(rev is not None and rev.value)
+        ex = ConstExec(repo, {})
+        sc = _Scope(fi, (fi.fq,))
+
+        def keyof(o: Obj) -> t.Any:
+            if isinstance(key, ast.Lambda):
+                a = key.args
+                if len(a.args) != 1 or a.posonlyargs or a.kwonlyargs or a.vararg or a.kwarg:
+                    return UNKNOWN
+                return _one(ex.ev(key.body, {a.args[0].arg: o}, sc))
+            if isinstance(key, ast.Call) and (dotted(key.func) or "").rsplit(".", 1)[-1] == "methodcaller" and len(key.args) == 1 and const_str(key.args[0]) is not None:
+                _, what = repo.lookup(rm.cls, const_str(key.args[0]))
+            else:
+                d = dotted(key)
+                fq = repo.resolve(fi.module, d, fi.module.local_imports(fi.node)) if d else None
+                what = repo.try_func(fq) if fq and fq.startswith("werkzeug.") else None
+            if isinstance(what, FuncInfo) and what.params:
+                return _one(ex.call(what, {what.params[0]: o}, ()))
+            return UNKNOWN
+
+        bad, undecided, rows = [], [], []
+        for k, dn in configs:
+            for da in range(k + 1):
+                for en, ea in ((False, False), (True, True)) if 0 in (dn, da) else ((False, False),):
+                    n_, a_ = mk("canonical", k, dn, False, en), mk("alias", k, da, True, ea)
+                    kn, ka = keyof(n_), keyof(a_)
+                    txt = f"{rm.show(n_)} key {kn} vs {rm.show(a_)} key {ka}"
+                    if kn is UNKNOWN or ka is UNKNOWN:
+                        undecided.append(txt)
+                        continue
+                    try:
+                        first = (kn > ka) if reverse else (kn < ka)
+                    except TypeError:
+                        undecided.append(txt)
+                        continue
+                    rows.append(f"{k} args, defaults {dn}/{da}: {kn} {'>' if reverse else '<'} {ka}")
+                    if not first:
+                        bad.append(txt)
+        if undecided and not bad:
+            ctx.error(f"R12.11: {fi.qualname}: the sort key of `{norm(c)[:70]}` at {fi.loc(c)} does not evaluate to comparable constants for {undecided[:3]}")
+            continue
+        ctx.ob("R12.11", f"{fi.qualname}: in the build order an alias rule comes after every non-alias rule with the same number of arguments, whatever their defaults", not bad,
+               ("the alias rule does not sort strictly after the canonical rule: " + "; ".join(bad[:4]) + " | " if bad else "") + f"key `{norm(key)[:70]}`{' reversed' if reverse else ''}; " + "; ".join(dict.fromkeys(rows)),
+               fi, c, f"{fi.qualname} sorts alias rules last")
